@@ -48,13 +48,27 @@ def make_case(kinds_per_block, tiling, rng, scalar_as_matrix_p=0.3, tag=None):
             data = []
             for _ in range(h * w):
                 data.append(distinct_value(k, counter, rng))
+            # how the block is written in the literal: a variable reference, an inline nested literal, or
+            # (numeric kinds) an inline arithmetic expression on a variable — the kernels take different
+            # branches for directly-valued blocks and for variable references
+            style = rng.random()
             if h == 1 and w == 1 and rng.random() > scalar_as_matrix_p:
-                src.append(ms.define_scalar(name, k, data[0]))
+                if style < 0.6:
+                    src.append(ms.define_scalar(name, k, data[0])); ref = name
+                else:
+                    ref = ms.lit(k, data[0], typed=True)
                 row_sx.append(ms.kval_scalar(k, data[0]))
             else:
-                src.append(ms.define_matrix(name, k, h, w, data))
+                if style < 0.5:
+                    src.append(ms.define_matrix(name, k, h, w, data)); ref = name
+                elif style < 0.85 or k not in ms.INT_KINDS + ["f64", "f32"]:
+                    ref = ms.mat_literal(k, h, w, data, typed_elems=True)
+                else:
+                    src.append(ms.define_matrix(name, k, h, w, data))
+                    unit = ms.lit(k, 0, typed=True) if rng.random() < 0.5 else None
+                    ref = "%s + %s" % (name, unit) if unit else "%s * %s" % (name, ms.lit(k, 1, typed=True))
                 row_sx.append(ms.kval_matrix(k, h, w, data))
-            row_names.append(name)
+            row_names.append(ref)
         rows_sx.append(row_sx)
         names.append(row_names)
     src.append("[" + "; ".join(" ".join(r) for r in names) + "]")
